@@ -76,6 +76,65 @@ def opSpecChecked : List V → Option V
       some (atom (Mk.Merge.specChecked leRow d ins out e))
   | _ => none
 
+/-- `stablesort <desc> [[row…]…]` → the declarative tie rule: stable sort, in the declared
+direction, of the inputs written one after the other -/
+def opStableSort : List V → Option V
+  | [d, ins] => do
+      let d ← toBool? d
+      let ins ← minputs? ins
+      some (ofMRows (Mk.Merge.stableSortAs leRow d ins.flatten))
+  | _ => none
+
+/-- a projected row: the selected columns in the selected order (column 0 = score, 1 = id) -/
+def projRow (cols : List Nat) (r : MRow) : List Rat :=
+  cols.map (fun c => if c == 0 then r.1 else (r.2 : Rat))
+
+/-- the priority value of a projected row, given the position of the score column in it -/
+def keyAt (pos : Nat) (r : List Rat) : Rat := (r.drop pos).headD 0
+
+/-- `mergecols <desc> <chunk> [col…] [[row…]…]` → `[[projected row…] raised?]` of the table merger
+with `columns=` (0 = score, 1 = id), `reject-empty`, or `reject-nokey` when the score is not selected -/
+def opMergeCols : List V → Option V
+  | [d, c, cols, ins] => do
+      let d ← toBool? d
+      let c ← toNat? c
+      let cols ← toList? toNat? cols
+      let ins ← minputs? ins
+      if c = 0 then some (atom "reject-chunk0") else
+      if ins.isEmpty || ins.any List.isEmpty then some (atom "reject-empty") else
+      let pos := cols.idxOf 0
+      match Mk.Merge.kmergeCheckedCols (fun a b => keyAt pos a ≤ keyAt pos b) (cols.contains 0)
+          (projRow cols) d c ins with
+      | none => some (atom "reject-nokey")
+      | some (out, err) => some (list [ofList (ofList ofRat) out, ofBool err])
+  | _ => none
+
+def ofFramesOut : Option (List (List MRow) × Bool) → V
+  | none => atom "reject-empty"
+  | some (fr, err) => list [ofList ofMRows fr, ofBool err]
+
+/-- `mergeframes <desc> <chunk> <frame size> [[row…]…]` → `[[frame…] raised?]`: what
+`get_chunked_data_iterator(frame size)` (`merge_readers`: 1) hands to its consumer -/
+def opMergeFrames : List V → Option V
+  | [d, c, o, ins] => do
+      let d ← toBool? d
+      let c ← toNat? c
+      let o ← toNat? o
+      let ins ← minputs? ins
+      if c = 0 || o = 0 then some (atom "reject-chunk0") else
+      some (ofFramesOut ((Mk.Merge.kmergeCheckedFiles leRow d c ins).map (Mk.Merge.kmDeliverFrames o)))
+  | _ => none
+
+/-- `mergeread <desc> <chunk> [[row…]…]` → `[rows raised?]` of `read()` -/
+def opMergeRead : List V → Option V
+  | [d, c, ins] => do
+      let d ← toBool? d
+      let c ← toNat? c
+      let ins ← minputs? ins
+      if c = 0 then some (atom "reject-chunk0") else
+      some (ofCheckedOut ((Mk.Merge.kmergeCheckedFiles leRow d c ins).map Mk.Merge.kmDeliverRead))
+  | _ => none
+
 end Mk.Ops.Merge
 
 namespace Mk.Ops
@@ -84,6 +143,8 @@ open Mk V
 def mergeOps : List (String × (List V → Option V)) :=
   [("merge", Merge.opMerge), ("mergefiles", Merge.opMergeFiles),
    ("mergechecked", Merge.opMergeChecked), ("mergerechunk", Merge.opRechunk),
-   ("spec-C14-merge", Merge.opSpecMerge), ("spec-C14-checked", Merge.opSpecChecked)]
+   ("spec-C14-merge", Merge.opSpecMerge), ("spec-C14-checked", Merge.opSpecChecked),
+   ("stablesort", Merge.opStableSort), ("mergecols", Merge.opMergeCols),
+   ("mergeframes", Merge.opMergeFrames), ("mergeread", Merge.opMergeRead)]
 
 end Mk.Ops
